@@ -26,8 +26,12 @@ Base == [query |-> "Query", mutation |-> "", subscription |-> "",
                                                                                         ArgD("b", Named("Boolean"), [k |-> "bool", v |-> TRUE]), ArgD("fl", Named("Float"), [k |-> "float", v |-> "1.5"]),
                                                                                         \* falsy defaults: zero, empty string, empty list, false
                                                                                         ArgD("z", Named("Int"), [k |-> "int", v |-> "0"]), ArgD("es", Named("String"), [k |-> "str", v |-> ""]),
-                                                                                        ArgD("el", ListOf(Named("Int")), [k |-> "list", vs |-> <<>>]), ArgD("bf", Named("Boolean"), [k |-> "bool", v |-> FALSE]) >>)
-                                                                 EXCEPT !.dep = "ASTRAL"] >>],
+                                                                                        ArgD("el", ListOf(Named("Int")), [k |-> "list", vs |-> <<>>]), ArgD("bf", Named("Boolean"), [k |-> "bool", v |-> FALSE]),
+                                                                                        \* a string with an astral character NESTED in a list default (nested defaults are printed by the AST printer)
+                                                                                        ArgD("ls", ListOf(Named("String")), [k |-> "list", vs |-> <<[k |-> "str", v |-> "ASTRAL"], [k |-> "str", v |-> "x"]>>]) >>)
+                                                                 EXCEPT !.dep = "ASTRAL"],
+                                                              \* a type reference seven wrappers deep, [[[Int!]!]!]!: the deepest the standard introspection query can report
+                                                              Fld("deep", NN(ListOf(NN(ListOf(NN(ListOf(NN(Named("Int")))))))), <<>>) >>],
     \* an interface with a deprecated field (introspection must filter it like an object's)
     [k |-> "interface", name |-> "Node", fields |-> << Fld("id", Named("ID"), <<>>), [Fld("old", Named("Int"), <<>>) EXCEPT !.dep = "gone"] >>],
     [k |-> "object", name |-> "A", ifaces |-> <<"Node">>, fields |-> << Fld("id", Named("ID"), <<>>), Fld("s", Named("String"), <<>>), Fld("old", Named("Int"), <<>>) >>],
